@@ -171,7 +171,8 @@ def build_and_prove(ctx: Ctx, mod) -> bool:
         if r["ok"] and not pr["ok"]:
             ok = False
             broken_stmts = pr["errors"]
-        hits = core.forbidden_scan()
+        hits = core.forbidden_scan(ctx.prop)
+        ctx.extra["cone_files"] = len(core.cone(f"Properties/{ctx.prop}.v"))
         if hits:
             ok = False
             broken_stmts = broken_stmts + [{"file": h.split(":")[0], "line": 0, "stmt": "forbidden-token", "msg": h} for h in hits[:5]]
